@@ -538,6 +538,27 @@ func opsString(ops []Op) string {
 	return strings.Join(s, ";")
 }
 
+// waitProgress waits for the replay to finish. It gives up only when the replay has made NO progress (no
+// further operation started) for blockedAfter: a slow machine is not a blocked call.
+func waitProgress[T any](ch chan T, progress *atomic.Int64) (T, bool) {
+	last, since := progress.Load(), time.Now()
+	tick := time.NewTicker(200 * time.Millisecond)
+	defer tick.Stop()
+	for {
+		select {
+		case o := <-ch:
+			return o, true
+		case <-tick.C:
+			if p := progress.Load(); p != last {
+				last, since = p, time.Now()
+			} else if time.Since(since) > blockedAfter {
+				var zero T
+				return zero, false
+			}
+		}
+	}
+}
+
 // blockedAfter: an operation of a sequential history that has not returned after this long never will (the
 // histories take microseconds; the only way to wait is a lock that was not released). Generous on purpose.
 const blockedAfter = 30 * time.Second
@@ -556,10 +577,10 @@ func runHistory(f factory, ops []Op) (imap, *orderedmap.Map, string) {
 		m, r, d := runHistoryOn(f, ops, &progress)
 		ch <- out{m, r, d}
 	}()
-	select {
-	case o := <-ch:
+	if o, ok := waitProgress(ch, &progress); ok {
 		return o.m, o.r, o.d
-	case <-time.After(blockedAfter):
+	}
+	{
 		n := int(progress.Load())
 		at := "the observers on the fresh object"
 		if n > 0 && n <= len(ops) {
